@@ -800,9 +800,26 @@ pub fn replay(sub: &str, case: &Value) -> Result<(), Fail> {
 }
 
 pub fn fuzz_targets() -> Vec<crate::fuzz::Target> {
-    use crate::fuzz::from_strategy;
-    vec![
-        from_strategy("c18_peers", "C18", "random", hist_random, check_hist),
-        from_strategy("c18_reentrant", "C18", "broadcast-reentrant", reentrant, check_reentrant),
-    ]
+    use crate::fuzz::{U, from_bytes};
+    vec![from_bytes(
+        "c18_peers",
+        "C18",
+        "random",
+        |data: &[u8]| {
+            let mut u = U::new(data);
+            let dead_mask = u.u8();
+            Some(Hist {
+                peers: 5,
+                keys: 5,
+                dead_mask: dead_mask & 0x1f & if dead_mask & 0x80 != 0 { 0 } else { 0xff },
+                ops: u.vec(200, |u| match u.weighted(&[3, 2, 6, 1]) {
+                    0 => Op::Insert(u.below(5) as u8),
+                    1 => Op::Remove(u.below(5) as u8),
+                    2 => Op::Alias(u.below(5) as u8, u.below(5) as u8),
+                    _ => Op::Broadcast(u.below(4) as u8),
+                }),
+            })
+        },
+        check_hist,
+    )]
 }
